@@ -219,3 +219,37 @@ func rsaPub(c *x509.Certificate) (*rsa.PublicKey, bool) {
 func decodeB64(s string) ([]byte, error) { return base64.StdEncoding.DecodeString(s) }
 
 func urlUnescape(s string) (string, error) { return url.QueryUnescape(s) }
+
+// NeighbourNoise performs the same delivery on a second SP instance with a different
+// configuration (other endpoint, issuer, audience, empty store) and ignores the outcome:
+// nothing the library keeps at package level may leak between instances.
+func (s *Std) NeighbourNoise(enc string) {
+	cfg := *s.Cfg
+	cfg.Name = "neighbour"
+	cfg.ACS = "https://neighbour.example/acs"
+	cfg.SLO = "https://neighbour.example/slo"
+	cfg.IdPIssuer = "https://neighbour-idp.example/meta"
+	cfg.Audience = "https://neighbour.example/meta"
+	cfg.Store = &world.SimCertStore{}
+	cfg.SkipSig = !s.Cfg.SkipSig
+	n, err := world.NewSPNode(&cfg, s.R.Sim.Time)
+	if err != nil {
+		return
+	}
+	n.Retrieve(enc)
+	n.LogoutResponse(enc)
+	s.R.Fault("neighbour_instance_traffic")
+}
+
+// WarmUpThenReconfigure lets the live SP first serve a delivery under a different
+// configuration (other endpoint, issuer, audience) and then switches its exported fields
+// to the configuration under test: nothing may be remembered from before the switch.
+func (s *Std) WarmUpThenReconfigure(enc string) {
+	sp := s.Node.SP
+	acs, slo, iss, aud := sp.AssertionConsumerServiceURL, sp.ServiceProviderSLOURL, sp.IdentityProviderIssuer, sp.AudienceURI
+	sp.AssertionConsumerServiceURL, sp.ServiceProviderSLOURL = "https://old-sp.example/acs", "https://old-sp.example/slo"
+	sp.IdentityProviderIssuer, sp.AudienceURI = "https://old-idp.example/meta", "https://old-sp.example/meta"
+	s.Node.Retrieve(enc)
+	sp.AssertionConsumerServiceURL, sp.ServiceProviderSLOURL, sp.IdentityProviderIssuer, sp.AudienceURI = acs, slo, iss, aud
+	s.R.Fault("sp_reconfigured_live")
+}
